@@ -169,7 +169,7 @@ func Load(cfg Config) (*Program, error) {
 		for _, n := range sc.Names() {
 			switch o := sc.Lookup(n).(type) {
 			case *types.Const:
-				if _, ok := o.Type().(*types.Named); ok && o.Val().Kind() == constant.Int {
+				if _, ok := o.Type().(*types.Named); ok && (o.Val().Kind() == constant.Int || o.Val().Kind() == constant.String) {
 					k := types.TypeString(o.Type(), nil) + "|" + o.Val().ExactString()
 					name := ShortPkg(p.PkgPath) + "." + n
 					if old, ok := P.consts[k]; !ok || name < old {
@@ -233,7 +233,7 @@ func ObjKey(f *types.Func) string {
 
 // ConstName returns the declared name of an integer constant of a named type.
 func (P *Program) ConstName(t types.Type, v constant.Value) (string, bool) {
-	if _, ok := t.(*types.Named); !ok || v == nil || v.Kind() != constant.Int {
+	if _, ok := t.(*types.Named); !ok || v == nil || (v.Kind() != constant.Int && v.Kind() != constant.String) {
 		return "", false
 	}
 	n, ok := P.consts[types.TypeString(t, nil)+"|"+v.ExactString()]
